@@ -170,7 +170,8 @@ def cpu_alarm(seconds):
     """Raise RunTimeout in the main thread after `seconds` of *CPU* time of this process
     (machine load cannot trip it)."""
     old = signal.signal(signal.SIGVTALRM, _on_vtalrm)
-    signal.setitimer(signal.ITIMER_VIRTUAL, seconds)
+    # repeating: should one delivery be swallowed somewhere, the next one comes half a second later
+    signal.setitimer(signal.ITIMER_VIRTUAL, seconds, 0.5)
     try:
         yield
     finally:
